@@ -643,6 +643,7 @@ func (f *Frame) execAppend(cur *blockCur, in ssa.Instruction, cc *ssa.CallCommon
 	r := c.define(hint, "Slice", fmt.Sprintf("(mk_slice %s %s %s %s)", rref, roff, newLen, rcap))
 	// backing array of the result
 	base := c.declare(hint+"_base", arrS)
+	c.byteHeapAxiom(k, base, true)
 	old := fmt.Sprintf("(select %s (s_ref %s))", h, s.S)
 	if c.mode == ModeInt {
 		// in place: base is the old array; realloc: base copies the prefix
